@@ -46,6 +46,7 @@ def run_watched(args, cwd, stdin_data=None):
             pass
     t0 = time.time()
     status = 'ok'
+    idle_windows = 0
     while True:
         try:
             p.wait(timeout=0.05 if time.time() - t0 < 2 else 0.5)
@@ -62,7 +63,13 @@ def run_watched(args, cwd, stdin_data=None):
             cpus = [s[0] for s in samples]
             if None in cpus:
                 continue
-            if cpus[0] == cpus[1] == cpus[2] and all(st in ('S', 'D') for st in samples[2][1]):
+            # no logical progress: all threads asleep and the CPU clock of the whole process advanced by at most
+            # 2 ticks (20 ms) in 2 s -- threads that only wake up to poll each other count as asleep
+            if cpus[2] - cpus[0] <= 2 and all(st in ('S', 'D') for st in samples[2][1]):
+                idle_windows += 1
+            else:
+                idle_windows = 0
+            if idle_windows >= 2:
                 status = 'deadlock'
                 p.kill(); p.wait(); break
             if time.time() - t0 > 120:
@@ -95,6 +102,10 @@ def judge(rep, what, status, rc, err, replay):
         add_violation(rep, f"C11/abort/stack-overflow/cli/{c11.stack_site(replay)}", f'{what}: stack overflow in the CLI', replay)
     elif status.startswith('signal/'):
         add_violation(rep, f'C11/{status}/cli', f'{what}: killed by signal; stderr {err[-300:]!r}', replay)
+    elif status == 'inconclusive' and m and (m.group(1).startswith('crates/') or m.group(1).startswith('/repo')):
+        # the watchdog could not classify the process, but it printed a panic from ast-grep's own code
+        f = os.path.relpath(m.group(1), '/repo') if m.group(1).startswith('/repo') else m.group(1)
+        add_violation(rep, f'C11/panic/cli/{f}', f'{what}: {err[err.find("panicked at"):][:300]!r} (then no exit within the watchdog time)', replay)
     elif status == 'inconclusive':
         rep['inconclusive'] += 1
     elif m:
@@ -224,6 +235,31 @@ def run_into(ctx, rep):
         for r in ex.map(one_proj, range(n_proj)):
             c11m(rep, r)
     count(rep, 'cli_projects', n_proj)
+    # the full product severity x files/ignores x printer for one well-formed matching rule
+    combos = []
+    for sev in ['error', 'warning', 'info', 'hint', 'off']:
+        for globs in ['', 'files: ["src/**"]\n', 'ignores: ["nothing/**"]\n', 'files: ["**/*.js"]\nignores: ["**/zzz.js"]\n']:
+            for fix in ['', 'fix: "bar($A)"\n']:
+                for argv in (['scan', '--color', 'never'], ['scan', '--json=stream'], ['scan', '--format', 'github'], ['scan', '--report-style', 'short', '--color', 'never'], ['scan', '-U']):
+                    combos.append((sev, globs, fix, argv))
+
+    def one_combo(ic):
+        i, (sev, globs, fix, argv) = ic
+        r = new_report()
+        files = {'src/' + k: v for k, v in SRC.items()}
+        files['sgconfig.yml'] = 'ruleDirs: [rules]\n'
+        files['rules/r1.yml'] = f'id: r1\nlanguage: JavaScript\nrule: {{pattern: "foo($A, $B)"}}\nseverity: {sev}\n{globs}{fix}'
+        d = os.path.join(work, f'combo-{i}')
+        common.write_tree(d, files)
+        status, rc, err = run_watched(argv, d)
+        judge(r, f'{" ".join(argv)} with severity {sev} {globs.strip()!r}', status, rc, err, {'monitor': 'py:c11', 'cli': True, 'kind': 'project', 'files': files, 'argv': argv})
+        shutil.rmtree(d, ignore_errors=True)
+        r['distinct_nontrivial'] += 1
+        return r
+    with cf.ThreadPoolExecutor(max_workers=common.NCPU) as ex:
+        for r in ex.map(one_combo, enumerate(combos)):
+            c11m(rep, r)
+    count(rep, 'cli_severity_glob_printer_combinations', len(combos))
     ctx.cleanup()
     return rep
 
